@@ -137,3 +137,36 @@ def nonparam_split(alpha, n, n_nonrep=4):
     except Exception as e:  # noqa
         out["exc"] = f"{type(e).__name__}: {e}"
     return out
+
+
+def partition_replay(unit, policy, estimands, thr=50.0, lo=0.5, hi=2.0, unit_blocklist=(), postal_blocklist=()):
+    """Build a 3-unit election whose first unit has the solver's values, run the REAL CombinedDataHandler
+    (__init__ + get_units) and report how often that unit occurs in the three frames.
+    unit: dict(inBase, inFeed, pc_b, pc_f, baseline_turnout/dem/gop, results_turnout/dem/gop (None = NaN), pev)"""
+    from elexmodel.handlers.data.CombinedData import CombinedDataHandler
+    from elexmodel.handlers.data.Estimandizer import Estimandizer
+
+    uid = "X_0001"
+    base_rows, feed_rows = [], []
+    if unit["inBase"]:
+        base_rows.append({"postal_code": unit["pc_b"], "geographic_unit_fips": uid, "county_fips": "c0", "baseline_turnout": unit["baseline_turnout"], "baseline_dem": unit["baseline_dem"], "baseline_gop": unit["baseline_gop"]})
+    if unit["inFeed"]:
+        feed_rows.append({"postal_code": unit["pc_f"], "geographic_unit_fips": uid, "results_turnout": unit["results_turnout"], "results_dem": unit["results_dem"], "results_gop": unit["results_gop"], "percent_expected_vote": unit["pev"]})
+    for i, pct in enumerate((100, 10)):
+        fid = f"F_{i}"
+        base_rows.append({"postal_code": "ZZ", "geographic_unit_fips": fid, "county_fips": "c1", "baseline_turnout": 1000, "baseline_dem": 500, "baseline_gop": 450})
+        feed_rows.append({"postal_code": "ZZ", "geographic_unit_fips": fid, "results_turnout": 1100 * pct // 100, "results_dem": 560 * pct // 100, "results_gop": 500 * pct // 100, "percent_expected_vote": pct})
+    base = pd.DataFrame(base_rows)
+    cur = pd.DataFrame(feed_rows).astype({"results_turnout": float, "results_dem": float, "results_gop": float})
+    pre = Estimandizer().add_estimand_baselines(base, {e: e for e in estimands}, False)
+    out = {"exc": None}
+    try:
+        h = CombinedDataHandler(pre, cur, list(estimands), "county", handle_unreporting=policy)
+        rep, nonrep, third = h.get_units(thr, lo, hi, list(unit_blocklist), list(postal_blocklist), False, False, 2.0, ["postal_code", "unit"])
+        out["count"] = int((rep.geographic_unit_fips == uid).sum() + (nonrep.geographic_unit_fips == uid).sum() + (third.geographic_unit_fips == uid).sum())
+        out["where"] = {"rep": int((rep.geographic_unit_fips == uid).sum()), "nonrep": int((nonrep.geographic_unit_fips == uid).sum()), "third": int((third.geographic_unit_fips == uid).sum())}
+        cats = list(third[third.geographic_unit_fips == uid].unit_category)
+        out["category"] = cats
+    except Exception as e:  # noqa
+        out["exc"] = f"{type(e).__name__}: {e}"
+    return out
